@@ -27,6 +27,11 @@ SPECS = {
     "generator": ('def gen(a):\n    return "c" * (int(str(a)) % 2 + 1)\n<start> ::= <b> <tail>\n<b> ::= "c"+ := gen(<a>)\n<a> ::= "1" | "3" | "2"\n<tail> ::= "t" | "u"\n'
                   'where int(<a>) < 3\nwhere str(<tail>) == "t"\n',
                   ["cct", "ccu", "ct"]),
+    # quantifiers that rebind the very symbol they range over (old and new syntax): a binding left over from the tree evaluated
+    # before would be found instead of the matches in the tree at hand
+    "rebinding": ('<start> ::= <item>+\n<item> ::= <d>\n<d> ::= "1" | "2" | "3"\n'
+                  'where forall <item> in <item>: int(<item>) < 3\nwhere all(int(<d>) > 1 for <d> in *<d>)\n',
+                  ["22", "13", "31"]),
     "equality": ('<start> ::= <l> "=" <r>\n<l> ::= <d>+\n<r> ::= <d>+\n<d> ::= "1" | "2"\nwhere <l> == <r>\nwhere len(str(<l>)) < 3\n',
                  ["1=1", "12=21", "2=22"]),
 }
